@@ -1170,3 +1170,33 @@ def replay_cg_trail(rec):
             code.append(c["out"])
     model = [-1] + list(rec["trail"])
     return [{"label": "cg.incumbent_value_after_each_iteration_differs_from_model", "m": model, "c": code, "key": {"vals": vals, "k": k, "o": rec["o"], "sw": sw}}]
+
+
+# ------------------------------------------------------------------ placement traces of the simple heuristics (logging bins-manager)
+class LoggingBinner(prtpy.BinnerKeepingContents):
+    """a contents-keeping manager that records every add_item_to_bin(item, bin) it is asked to perform (the README offers the binner as the extension point)"""
+    def __init__(self, valueof):
+        super().__init__(valueof)
+        self.adds = []
+
+    def add_item_to_bin(self, bins, item, bin_index):
+        nb = self.numbins(bins)
+        self.adds.append({"id": int(item), "bin": int(bin_index) + 1 if bin_index >= 0 else nb + 1 + int(bin_index)})
+        return super().add_item_to_bin(bins, item, bin_index)
+
+
+def run_placements(st):
+    """st: {alg, vals, k or C}: the real heuristic called directly with a logging manager on items = ids"""
+    vals = st["vals"]
+    ids = list(range(1, len(vals) + 1))
+    B = LoggingBinner(lambda i: vals[i - 1])
+    t = {"alg": st["alg"], "vals": vals, "k": st.get("k", 0), "C": st.get("C", 0), "out": "ret", "adds": []}
+    try:
+        if st["alg"] in PART_ALGS:
+            PART_ALGS[st["alg"]]()(B, st["k"], ids)
+        else:
+            pack_alg(st["alg"])(B, st["C"], ids)
+    except Exception as e:
+        t["out"] = outcome_of_exception(e)
+    t["adds"] = B.adds
+    return t
